@@ -40,6 +40,13 @@ Proof. exact (chk_ranges_complete_sound T0 chk_ranges_complete_shipped id k v). 
 Theorem C11_rows_ascending_one_version_per_step : chk_ranges_keyed_ascending T0 = true /\ chk_ranges_distinct_families T0 = true.
 Proof. exact (conj chk_ranges_keyed_ascending_shipped chk_ranges_distinct_families_shipped). Qed.
 
+(* the first sentence of C11 through the API itself, for every two entries of one family of the shipped table, written
+   as the ids themselves (finite obligation re-proved on the regenerated table) *)
+Theorem C11_api row a b ka va kb vb : In row (rngs T0) -> In a (concat row) -> In b (concat row) ->
+  decompose a = Some (ka, va) -> decompose b = Some (kb, vb) ->
+  satisfies T0 b [a ++ ["+"%char]] = Ok (ver_leb va vb) /\ satisfies T0 (a ++ ["+"%char]) [b] = Ok (ver_leb va vb).
+Proof. exact (chk_plus_api_sound T0 chk_plus_api_shipped row a b ka va kb vb). Qed.
+
 Example C11_example :
   position T0 (s2l "LPPL-1.3a") = Some (26, 3) /\ position T0 (s2l "LPPL-1.3c") = Some (26, 4)
   /\ nat_kv (s2l "LPPL-1.3c") = Some ((s2l "LPPL", []), ([1%N; 3%N], Some "c"%char))
@@ -48,5 +55,5 @@ Example C11_example :
 Proof. vm_compute. repeat split; reflexivity. Qed.
 
 Definition C11_theorems := (@C11, @C11_never_across_families, @C11_positions_natural, @C11_entries_listed, @C11_entries_one_position,
-  @C11_covered_families_complete, @C11_rows_ascending_one_version_per_step).
+  @C11_covered_families_complete, @C11_rows_ascending_one_version_per_step, @C11_api).
 Redirect "assumptions/C11" Print Assumptions C11_theorems.
